@@ -416,6 +416,18 @@ def normalise_first(ctx: Ctx, rep: Report, rid: str = "R01.3") -> None:
                                         return True
             return False
 
+        def inline_split_norm(nd: Node) -> bool:
+            """`lines = [h.init_line(s) for s in line.split("\n")]`: split and per-line normalisation in one statement."""
+            if nd.kind == "stmt" and nd.ast is not None:
+                for x in ast.walk(nd.ast):
+                    if isinstance(x, (ast.ListComp, ast.GeneratorExp)) and len(x.generators) == 1:
+                        it = x.generators[0].iter
+                        if isinstance(it, ast.Call) and isinstance(it.func, ast.Attribute) and it.func.attr in ("split", "splitlines") and src(it.func.value) == param:
+                            if it.func.attr == "splitlines" or (it.args and isinstance(it.args[0], ast.Constant) and it.args[0].value == "\n"):
+                                if any(isinstance(y, ast.Call) and (src(y.func).split(".")[-1] in NORMALISERS) for y in ast.walk(x.elt)):
+                                    return True
+            return False
+
         users = [nd for nd in cfg.live if nd.ast is not None and nd.kind in ("stmt", "cond", "for") and mentions(nd.ast, param) and not (nd.kind == "stmt" and isinstance(nd.ast, ast.Expr) and isinstance(nd.ast.value, ast.Constant))]
         if not users:
             rep.ok(f"{st.qualname}", "stub (does not read the text)", nontrivial=False, where=where(st))
@@ -425,7 +437,7 @@ def normalise_first(ctx: Ctx, rep: Report, rid: str = "R01.3") -> None:
         if trivial and len(users) == 1:
             rep.ok(f"{st.qualname}", "stub (ignores the text)", nontrivial=False, where=where(st))
             continue
-        norms = [nd for nd in users if is_norm(nd) or split_then_norm(nd)]
+        norms = [nd for nd in users if is_norm(nd) or split_then_norm(nd) or inline_split_norm(nd)]
         bad = [u for u in users if u not in norms and not any(cfg.dominates(nm, u) for nm in norms)]
         # an isinstance type guard on the raw parameter is not a parse
         bad = [u for u in bad if not (u.kind == "cond" and "isinstance" in src(u.ast))]
@@ -574,6 +586,9 @@ def path_assigned(ctx: Ctx, f: Func, cls: Class, path, memo, symenv=None) -> Set
 
     out: Set[str] = set()
     self_name = f.params[0] if f.params else "self"
+    from .common import single_env as _single_env
+
+    senv_ = _single_env(f.node)
     for node, lab in path:
         if node.ast is None or node.kind != "stmt":
             continue
@@ -590,6 +605,23 @@ def path_assigned(ctx: Ctx, f: Func, cls: Class, path, memo, symenv=None) -> Set
                     else:
                         out.add(t.attr)
         for x in ast.walk(st):
+            # a bound method chosen by a conditional expression (possibly kept in a local first)
+            if isinstance(x, ast.Call):
+                fx = x.func
+                if isinstance(fx, ast.Name) and fx.id in senv_:
+                    fx = senv_[fx.id]
+                if isinstance(fx, ast.IfExp):
+                    cands = [cls.lookup_method(alt.attr) for alt in (fx.body, fx.orelse) if isinstance(alt, ast.Attribute) and src(alt.value) == self_name]
+                    cands = [m_ for m_ in cands if m_ is not None and m_ is not f]
+                    if len(cands) == 2:
+                        sets = [_must_assign(ctx, m_, cls, memo, 0, symenv) for m_ in cands]
+                        live = [s_ for s_ in sets if s_ is not NEVER_RETURNS]
+                        if not live:
+                            return NEVER_RETURNS
+                        acc = set(live[0])
+                        for s_ in live[1:]:
+                            acc &= s_
+                        out |= acc
             if isinstance(x, ast.Call) and isinstance(x.func, ast.Attribute):
                 callee = None
                 if src(x.func.value) == self_name:
